@@ -549,8 +549,8 @@ def p3_stream_job(run, name, prop, streams, profile="dev", timeout=2400, heap="6
             hdr = {"cfg": st["cfg"], "unit": st["unit"], "mode": st["mode"], "eps": st["eps"], "float": st.get("float", "f64")}
             if "epsp" in st:
                 hdr["epsp"] = st["epsp"]
-            if st.get("pairs"):
-                hdr["pairs"] = True               # every input is [m, e]: the value (m / unit) * 2^e
+            if st.get("pairs") and st["mode"] != "alive":
+                hdr["pairs"] = True               # every input is [m, e]: the value (m / unit) * 2^e (mode alive does not re-read the inputs)
             if any(abs(v) >= 2 ** 31 for v in st["eps"]):
                 raise ToolError("%s: eps %s does not fit TLC's 32-bit integers (use epsp)" % (name, st["eps"]))
             f.write(json.dumps(hdr) + "\n")
